@@ -30,6 +30,41 @@ def cases(draw, tier="quick"):
         mdp_specs("dproper", min_states=2, max_states=6 if big else 5, allow_explicit=False,
                   absorbing_kinds=("n", "n", "n", "n", "abs")),
     ))
+    if draw(st.integers(0, 2)) == 0:
+        # tie-prone family: undiscounted, unit-ish integer costs, mostly deterministic moves, integer heuristic slack and
+        # randomised action order - exact ties between a solved branch and an optimistically valued unexplored one
+        spec = draw(mdp_specs("ssp", min_states=3, max_states=6 if big else 5, allow_explicit=False, zero_weights=False,
+                              max_out=draw(st.sampled_from([1, 1, 2])),
+                              absorbing_kinds=("n", "n", "n", "n", "abs"), reward_values=[-1, -1, -2, 0]))
+        if draw(st.booleans()):
+            # graft a fork in front of the MDP: a new start state with two sure moves into two new states that continue
+            # into the generated part; with the tie-forcing heuristic the worse branch looks exactly as good as the better
+            # one until it is expanded
+            from vpm.labels import enc
+            n0, m0 = spec["n"], spec["m"]
+            if m0 < 2:
+                spec["m"] = 2
+                spec["alabels"] = [enc(x) for x in (["a0", "a1"] if isinstance(spec["alabels"][0], str) else [0, 1])]
+            targets = [s for s in range(n0)]
+            u, v = draw(st.sampled_from(targets)), draw(st.sampled_from(targets))
+            cu, cv = draw(st.sampled_from([-1, -2, -3, -6])), draw(st.sampled_from([-1, -2, -3, -6]))
+            acts = [0, 1] if draw(st.booleans()) else [1, 0]
+            spec["trans"] += [[[acts[0], [[u, 1, cu]]], [acts[1], [[u, 1, cu]]]],          # x
+                              [[acts[0], [[v, 1, cv]]], [acts[1], [[v, 1, cv]]]],          # y
+                              [[acts[0], [[n0, 1, -1]]], [acts[1], [[n0 + 1, 1, -1]]]]]    # new start: first action -> x, second -> y
+            spec["absorbing"] += [0, 0, 0]
+            lab = (lambda i: f"g{i}") if isinstance(spec["slabels"][0], str) else (lambda i: 1000 + i)
+            spec["slabels"] += [enc(lab(0)), enc(lab(1)), enc(lab(2))]
+            spec["n"] = n0 + 3
+            spec["p0"] = [[n0 + 2, 1]]
+            return {"mdp": spec, "heuristic": {"kind": "tie", "slack": [0] * spec["n"], "const_extra": 0},
+                    "margin": draw(st.sampled_from([1e-1, 1e-2, 1e-4])), "seed": draw(st.integers(0, 10 ** 6)),
+                    "randomize_action_order": True}
+        return {"mdp": spec, "heuristic": {"kind": draw(st.sampled_from(["const", "slack", "tie", "tie"])),
+                                           "slack": [draw(st.sampled_from([0, 1, 2])) for _ in range(spec["n"])],
+                                           "const_extra": draw(st.sampled_from([0, 1]))},
+                "margin": draw(st.sampled_from([1e-1, 1e-2, 1e-4])), "seed": draw(st.integers(0, 10 ** 6)),
+                "randomize_action_order": True}
     return {"mdp": spec, "heuristic": draw(heuristic_specs(spec["n"])),
             "margin": draw(st.sampled_from([1e-1, 1e-2, 1e-4])),
             "seed": draw(st.one_of(st.sampled_from([0, 1, 2 ** 31 - 1]), st.integers(0, 10 ** 6))),
@@ -44,7 +79,7 @@ def prop_lrtdp(case, ctx):
     opt = ref.optimal()
     vstar = opt["V"]
     scale = 1 + float(np.max(np.abs(vstar)))
-    h, hvals = make_heuristic(case["heuristic"], ref, vstar, view)
+    h, hvals = make_heuristic(dict(case["heuristic"], _q=opt["Q"]), ref, vstar, view)
     below = []
     counts = {"steps": 0, "trials": 0}
 
